@@ -62,3 +62,27 @@ Fixpoint sortedb {A : Type} (d : dict A) : bool :=
 Definition pointwise {A : Type} (eqb : option A -> option A -> bool) (keys : list N)
            (d : dict A) (spec : N -> option A) : bool :=
   sortedb d && forallb (fun k => eqb (lookup k d) (spec k)) keys.
+
+(* ---- executable acceptance test for a recorded patch stream (Proofs.patch_ok
+   evaluated over the finite key set of the case; [keys] must contain every key
+   of base, left, right and of the stream's contents) ---- *)
+Definition oo_eqb (x y : option (option N)) : bool :=
+  match x, y with
+  | None, None => true
+  | Some a, Some b => opt_eqb a b
+  | _, _ => false
+  end.
+
+Definition patch_okb (collide : collide_t) (base left right : dict N) (keys : list N) (p : patch) : bool :=
+  let P := send_patches collide (diff base left) (diff base right) in
+  match p with
+  | PPoint k to => oo_eqb (lookup k P) (Some to)
+  | PRange lo hi c =>
+    sortedb c
+    && forallb (fun k => opt_eqb (lookup k c) (if in_range lo hi k then lookup k right else None)) (keys ++ map fst c)
+    && forallb (fun k => negb (in_range lo hi k) || opt_eqb (lookup k left) (lookup k base)) keys
+  end.
+
+Definition stream_okb (collide : collide_t) (base left right : dict N) (keys : list N) (ps : list patch) : bool :=
+  forallb (patch_okb collide base left right keys) ps
+  && forallb (fun e => covered ps (fst e)) (send_patches collide (diff base left) (diff base right)).
